@@ -109,6 +109,42 @@ class Ctx:
         self.notes.append('%s: %s' % (self._rid(), s))
 
 
+def run_selftest(ctx, pid):
+    """Thorough tier: apply every catalogued mutant of this property to a scratch copy of the
+    repository and require the quick check to report it.  A mutant whose edit anchors no longer
+    exist in the tree is skipped (the tree changed), never counted as a failure."""
+    import importlib.util
+    sdir = os.path.join(VERIF, 'selftest')
+    sys.path.insert(0, sdir)
+    try:
+        import run as st_run
+        import catalogue
+    finally:
+        sys.path.pop(0)
+    out = {}
+    ctx.rule = 'selftest'
+    ctx.config = 'default'
+    for m in catalogue.MUTANTS:
+        if pid not in m['props']:
+            continue
+        mm = dict(m, props=[pid])
+        r = st_run.run_one(mm)
+        if r.get('error'):
+            out[m['id']] = 'skipped: ' + r['error'][:80]
+            continue
+        if r.get('build_failed'):
+            out[m['id']] = 'skipped: mutant does not build on this tree'
+            continue
+        caught = bool(r['fired'].get(pid))
+        out[m['id']] = 'caught' if caught else 'MISSED'
+        if caught:
+            ctx.ok('selftest', 'mutant %s' % m['id'], 'reported: %s' % '; '.join(r['keys'].get(pid, [])[:2])[:200], '')
+        else:
+            ctx.bad('selftest', 'mutant-not-caught:%s' % m['id'],
+                    'the seeded mutant %s (which breaks %s) is not reported by this check: the checker lost its teeth' % (m['id'], pid))
+    return out
+
+
 def load_known():
     p = os.path.join(VERIF, 'known_findings.json')
     if not os.path.exists(p):
@@ -153,6 +189,11 @@ def run_property(pid, tier='quick', seed=0, only_rule=None, replay=None):
         fatal = str(e)
         ctx.rule = 'build'
         ctx.bad('-', 'repo-does-not-build', fatal[:1500])
+
+    mutants = {}
+    if tier == 'thorough' and fatal is None and os.path.realpath(export.REPO) == '/repo' and not os.environ.get('VERIF_NO_SELFTEST') \
+            and not only_rule:
+        mutants = run_selftest(ctx, pid)
 
     known = load_known()
     known_keys = {k['key']: k for k in known.get('known', []) if k.get('property') == pid}
@@ -220,6 +261,7 @@ def run_property(pid, tier='quick', seed=0, only_rule=None, replay=None):
             'new_violations': [v['key'] for v in new],
             'not_decided': meta.get('not_decided', ''),
             'notes': ctx.notes,
+            'mutants': mutants,
             'checker_cmd': 'bin/check %s --tier %s' % (pid, tier),
             'trusted_base': ['rustc type checking / trait resolution / MIR construction (-Zmir-opt-level=0)',
                              'driver/src/main.rs (fact exporter)', 'analyses/*.py (rule engines)',
